@@ -42,15 +42,17 @@ TEXT["C03"] = dict(
   text=("Machine-checked Lean 4 theorems about the compression front end and the decompressor's acceptance arithmetic: "
         "the stored form is never longer than the input for any codec output; the reader's size-only raw-vs-compressed "
         "rule recovers the data whenever the codec inverts; a closed form of everything validate_file_bounds / adaptive "
-        "limits / pattern detection / +-10% / monitor accept; the in-tree sparse decoder is correct on every well-formed "
-        "token stream. The statement 'the compressor's own output is always accepted' is FALSE of the code: proved as "
+        "limits / pattern detection / +-10% / monitor accept; the in-tree sparse codec INVERTS EXACTLY: a model of "
+        "sparse.rs:compress (scan, StormLib's 0x81 quirk, zero-run splitting, tail flush) is proved to emit a well-formed "
+        "token stream standing for its input, the decoder model is proved correct on such streams with an over-long final "
+        "zero marker, hence decode(compress d) = d for every non-empty d < 4 GiB, and through the store-raw front end for "
+        "every d. The statement 'the compressor's own output is always accepted' is FALSE of the code: proved as "
         "_partial under the ratio hypothesis, with a kernel-checked witness that is replayed on the implementation "
         "(known finding D2). Tied to the code by differential execution of framing decisions, selector support, "
-        "acceptance outcomes and sparse decoding, and by a round-trip / never-expands oracle over all selectors."),
-  note=("third-party codecs are parameters (round trip sampled, not proved); the sparse compressor and ADPCM are "
-        "observed only. Known findings D2 (ratio limits reject own output) and D25 (PKWare output undecodable); one "
+        "acceptance outcomes, sparse encoding (byte for byte) and decoding, and by a round-trip / never-expands oracle over all selectors."),
+  note=("third-party codecs are parameters (round trip sampled, not proved); ADPCM is observed only. Known findings D2 (ratio limits reject own output) and D25 (PKWare output undecodable); one "
         "defect repaired (PKWare ASCII-mode panic)."),
-  technique="Lean 4 proof (arithmetic closed form, decoder induction) + differential correspondence + round-trip oracle")
+  technique="Lean 4 proof (arithmetic closed form, sparse codec round trip by induction over the compressor's scan) + differential correspondence + round-trip oracle")
 TEXT["C08"] = dict(
   text=("Machine-checked Lean 4 theorems: after every history of add / remove / set-priority / clear the chain is ordered "
         "by (priority descending, insertion ascending) with fresh stamps (induction over histories); a lookup returns an "
@@ -153,7 +155,7 @@ TEXT["C06"] = dict(
 
 TEXT["C07"] = dict(
     text="Machine-checked Lean 4 theorems about a model of rebuild_archive and of compare's content check, for every listing and option set: a successful rebuild re-adds exactly the listed files the options do not exclude, in order, with the bytes the reader returned (extract_names/sound/complete); the only other outcome is an error naming a selected file that could not be read, never a silent skip (extract_error); the summary counts are truthful and add up (counts_truthful); as a map the result holds every non-excluded name's content and nothing under excluded names (rebuilt_lookup); comparing source and result reports no content difference and exactly the excluded names as missing (compare_clean). Tied to the code by a source x target-version x options sweep comparing the model's summary/error with rebuild_archive's, plus a bit-for-bit content oracle on the rebuilt archive and compare_archives' report.",
-    note="Two genuine defects repaired in /repo (V3/V4 sources rebuilt to an empty archive reported as success, silent skip of unreadable files, count underflow; compare summary underflow). Reader and builder correctness are C01's subject and are assumed here.",
+    note="Two genuine defects repaired in /repo (V3/V4 sources rebuilt to an empty archive reported as success, silent skip of unreadable files, count underflow; compare summary underflow). Known finding D2 reached through rebuild (a highly compressible file recompressed into the target is then refused by the target reader's ratio limit; a fixed witness runs in every tier), with its consequence D2c in compare. Reader and builder correctness are C01's subject and are assumed here.",
     technique="Lean 4 proof (structural induction over the listing; map refinement) + differential correspondence over source x target x options",
 )
 
